@@ -360,3 +360,16 @@ func (e *Env) EvictNodeCaches() {
 	l1.DeleteNodes(Ctx, ids)
 	l1.Handles.Clear()
 }
+
+// EvictL1Only pushes every real node out of the process L1 cache (by filling it with placeholder nodes, which are
+// then removed) without touching the L2 cache: the next transaction that needs a node takes an L1 miss and an L2 hit.
+func (e *Env) EvictL1Only() {
+	l1 := cache.GetGlobalL1Cache(e.L2)
+	var ids []sop.UUID
+	for i := 0; i < 4*cache.DefaultMaxCapacity; i++ {
+		id := sop.NewUUID()
+		ids = append(ids, id)
+		l1.SetNodeToMRU(Ctx, id, &btree.Node[int, string]{ID: id}, time.Minute)
+	}
+	l1.DeleteNodes(Ctx, ids)
+}
